@@ -1050,6 +1050,9 @@ class Engine:
         r = self.c.on_call(self, st, None, "str", None, [v], {})
         if r is not NotImplemented:
             return r
+        items = self._concrete_items(v)
+        if items is not None and all(isinstance(x, (str, int, float, bool, type(None))) for x in items):
+            return str(list(items)) if isinstance(v, PyList) else str(tuple(items))
         raise Unsupported(f"str({v!r})")
 
     def concat(self, parts):
@@ -1530,6 +1533,41 @@ class Engine:
         if status[0] == "raise":
             raise PyRaise(status[1])
         raise Unsupported(f"inlined helper {fn.name}: exit {status}")
+
+    def summarize_closure(self, clo, args, st):
+        """value of clo(*args) as ONE expression (nested If over the closure's own branch conditions), for element-wise application of a
+        small function to a symbolic element.  The closure body is executed with ordinary forking on a scratch copy of the state."""
+        fn = clo.node
+        params = [x.arg for x in fn.args.posonlyargs + fn.args.args]
+        if len(params) != len(args) or fn.args.vararg or fn.args.kwarg or fn.args.kwonlyargs:
+            raise Unsupported("closure signature")
+        sub = st.clone()
+        base = len(sub.pc)
+        env = dict(clo.env) if clo.env is not None else {}
+        env.update(dict(zip(params, args)))
+        sub.env = env
+        saved = (self.src, self.loop_id, self.depth)
+        if clo.module is not None:
+            self.src = clo.module
+        self.loop_id, self.depth = {}, 0
+        try:
+            if isinstance(fn, ast.Lambda):
+                outs = [(s2, ("return", v)) for (s2, v) in self.eval_forking(fn.body, sub)]
+            else:
+                outs = self.block(fn.body, sub)
+        finally:
+            self.src, self.loop_id, self.depth = saved
+        result = None
+        for (s2, status) in reversed(outs):
+            if isinstance(status, tuple) and status[0] == "return" and not isinstance(status[1], PyRaise):
+                val = status[1]
+            else:
+                raise Unsupported("element-wise function that raises or falls through")
+            cond = And(*s2.pc[base:]) if len(s2.pc) > base else BoolVal(True)
+            result = val if result is None else _ite(cond, val, result)
+        if result is None:
+            raise Unsupported("element-wise function without a result")
+        return result
 
     def builtin(self, name, args, kwargs, st, node):
         if name == "len":
